@@ -56,7 +56,7 @@ def live_oracle(prop, scenarios, rounds_quick=300, rounds_thorough=3000):
         fail_gen = None
         for sc in scenarios:
             rounds = rounds_quick if tier == "quick" else rounds_thorough
-            gen = ["live", "--scenario", sc, "--rounds", str(rounds), "--seed", str(seed)]
+            gen = ["live", "--scenario", sc, "--rounds", str(rounds), "--seed", str(seed), "--prop", prop]
             rc, out = sh([tracegen] + gen, timeout=600)
             m = re.search(r"live scenario=(\S+) rounds=(\d+) violations=(\d+) detail=(\S+)", out)
             if not m:
@@ -172,7 +172,7 @@ CACHE_ASSUME = [
 PROPS = {
     "C03": {
         "module": "StrettoModel.Props.C03",
-        "oracles": [{"name": "live-sweep-race", "run": live_oracle("C03", ["async_sweep_race"])}, {"name": "flavour-differential", "run": flavour_oracle_for("C03")}],
+        "oracles": [{"name": "live-sweep-race", "run": live_oracle("C03", ["async_sweep_race", "sweep_refresh_race"])}, {"name": "flavour-differential", "run": flavour_oracle_for("C03")}],
             "jobs": [acache_job(r"\.(store|expiry|ret|callbacks|len)$", extra=["--w-ttl", "60"]), cache_job(r"\.(store|expiry|ret|callbacks|len)$", extra=["--w-ttl", "70"])],
         "branches": ["get.hit", "get.expired", "get.miss", "getttl.remaining", "getttl.max", "getttl.none", "insert.ttl", "insert.update",
                      "tick.reclaimed", "tick.recheck_skipped", "getmut.hit", "getmut.expired", "getttl.expired", "iip.expired"],
@@ -180,7 +180,7 @@ PROPS = {
     },
     "C05": {
         "module": "StrettoModel.Props.C05",
-        "oracles": [{"name": "live-sweep", "run": live_oracle("C05", ["async_sweep_race", "async_sweep_under_traffic", "cleanup_interval_honoured", "tiny_cleanup_interval"])}, {"name": "flavour-differential", "run": flavour_oracle_for("C05")}],
+        "oracles": [{"name": "live-sweep", "run": live_oracle("C05", ["async_sweep_race", "async_sweep_under_traffic", "cleanup_interval_honoured", "tiny_cleanup_interval", "sweep_refresh_race"])}, {"name": "flavour-differential", "run": flavour_oracle_for("C05")}],
             "jobs": [acache_job(r"\.(store|expiry|policy|callbacks|len)$", extra=["--w-ttl", "60"]), cache_job(r"\.(store|expiry|policy|callbacks|len)$", extra=["--w-ttl", "80"])],
         "branches": ["tick.reclaimed", "tick.recheck_skipped", "tick.idle", "insert.ttl", "insert.update", "remove.resident"],
         "assumptions": CACHE_ASSUME + ["the tick period (crossbeam tick / async-io Timer) is environment: ticks are placed by the schedule, with a virtual nanosecond clock",
@@ -188,10 +188,10 @@ PROPS = {
     },
     "C02": {"module": "StrettoModel.Props.C02", "jobs": [acache_job(r"\.(store|ret|callbacks|buffer|clear)$", extra=["--collisions", "1"]), cache_job(r"\.(store|ret|callbacks|buffer|clear)$", extra=["--collisions", "1", "--w-clear", "5"])],
             "branches": ["get.hit", "get.miss", "get.conflict_miss", "getmut.hit", "insert.update", "insert.new_over_resident", "remove.resident", "p.clear.buf1", "delete.other_conflict"],
-            "oracles": [{"name": "flavour-differential", "run": flavour_oracle_for("C02")}, {"name": "live-remove-full", "run": live_oracle("C02", ["remove_full", "async_remove_full", "invariants", "async_invariants"])}],
+            "oracles": [{"name": "flavour-differential", "run": flavour_oracle_for("C02")}, {"name": "live-remove-full", "run": live_oracle("C02", ["remove_full", "async_remove_full", "invariants", "async_invariants", "async_clear_ack"])}],
             "assumptions": CACHE_ASSUME + ["values are opaque ids: the model carries a value id where the code carries a V; that the code hands back the V it stored under that id (no aliasing inside a shard's HashMap) is std's contract and is sampled by the correspondence (every returned value is compared)",
                                            "concurrent lookups during an in-place update are serialised by the shard lock; that atomicity (never a mixture of two values) is the RwLock's contract, not a theorem here"]},
-    "C04": {"module": "StrettoModel.Props.C04", "oracles": [{"name": "flavour-differential", "run": flavour_oracle_for("C04")}],
+    "C04": {"module": "StrettoModel.Props.C04", "oracles": [{"name": "flavour-differential", "run": flavour_oracle_for("C04")}, {"name": "live-clear-ack", "run": live_oracle("C04", ["async_clear_ack"])}],
             "jobs": [acache_job(r"\.(store|expiry|policy|ret|callbacks|buffer|len)$", extra=["--w-ttl", "60"]), cache_job(r"\.(store|expiry|policy|ret|callbacks|buffer|len)$", extra=["--w-ttl", "50"])],
             "branches": ["padd.room", "padd.evicting", "padd.rejected", "insert.update", "insert.dropped", "remove.resident", "tick.reclaimed", "tick.idle"],
             "assumptions": CACHE_ASSUME + ["refines_ttl_map composes the per-operation squares over sequential histories (each operation taken to quiescence); for histories with several client calls in flight the composition is carried by the run-time no-loss monitor, which tracks capacity pressure (latest asked cost per charged key at quiescence, per-key peak while writes are in flight) and collisions from the implementation's own history",
@@ -201,19 +201,19 @@ PROPS = {
                      cache_job(r"\.(store|policy|callbacks|len|buffer)$", name="cache-plain", quick_lives=14)],
             "branches": ["padd.evicting", "padd.rejected", "padd.already_charged", "delete.resident", "delete.other_conflict", "delete.absent",
                          "tick.reclaimed", "p.clear.buf1", "remove.resident", "remove.buffer_full", "insert.split"],
-            "oracles": [{"name": "flavour-differential", "run": flavour_oracle_for("C06")}, {"name": "live-remove-full", "run": live_oracle("C06", ["remove_full", "async_remove_full", "invariants", "async_invariants"])}],
+            "oracles": [{"name": "flavour-differential", "run": flavour_oracle_for("C06")}, {"name": "live-remove-full", "run": live_oracle("C06", ["remove_full", "async_remove_full", "invariants", "async_invariants", "sweep_refresh_race"])}],
             "assumptions": CACHE_ASSUME + ["guards of the theorem checked at run time on the implementation's observations: VictimsOk (no sampled victim is the incoming key) and TickOk (conflict hashes filed in due buckets pass the store's check)"]},
     "C08": {"module": "StrettoModel.Props.C08",
             "jobs": [acache_job(r"\.(store|callbacks|buffer|ret)$"), cache_job(r"\.(store|callbacks|buffer|ret)$", extra=["--collisions", "1"]), cache_job(r"\.(store|callbacks|buffer|ret)$", name="cache-plain", extra=["--w-clear", "5"])],
             "branches": ["insert.update", "insert.new", "insert.new_over_resident", "remove.resident", "delete.resident", "padd.evicting", "padd.rejected", "padd.already_charged",
                          "tick.reclaimed", "p.clear.buf1", "p.stop", "getmut.hit"],
-            "oracles": [{"name": "flavour-differential", "run": flavour_oracle_for("C08")}, {"name": "live-invariants", "run": live_oracle("C08", ["invariants", "async_invariants"])}],
+            "oracles": [{"name": "flavour-differential", "run": flavour_oracle_for("C08")}, {"name": "live-invariants", "run": live_oracle("C08", ["invariants", "async_invariants", "clear_held_ref", "async_clear_ack"])}],
             "assumptions": CACHE_ASSUME + ["values are opaque ids; each write hands the cache a value id that occurs nowhere in it (a Rust value is moved in: a distinct object) — hypothesis `Fresh` of the run theorems; the harness numbers its values consecutively",
                                            "the run theorems assume C06's guards on oracle inputs (VictimsOk, TickOk), checked at run time by the driver on the implementation's observations",
                                            "the callback log of the model is the sequence of CacheCallback calls the recording callback of the harness saw; it is compared step by step"]},
     "C10": {"module": "StrettoModel.Props.C10", "jobs": [acache_job(r"\.(buffer|ret|wait|clear|close|closed)$"), cache_job(r"\.(buffer|ret|wait|clear|close|closed)$", extra=["--w-wait", "10", "--w-close", "3", "--w-clear", "5"])],
-            "oracles": [{"name": "flavour-differential", "run": flavour_oracle_for("C10")}, {"name": "live-barrier", "run": live_oracle("C10", ["barrier", "protocol_storm", "async_barrier", "async_protocol_storm", "remove_full", "async_remove_full"])}], "assumptions": CACHE_ASSUME},
-    "C15": {"module": "StrettoModel.Props.C15", "oracles": [{"name": "live-ring", "run": live_oracle("C15", ["async_ring_accounting"])}, {"name": "flavour-differential", "run": flavour_oracle_for("C15")}],
+            "oracles": [{"name": "flavour-differential", "run": flavour_oracle_for("C10")}, {"name": "live-barrier", "run": live_oracle("C10", ["barrier", "protocol_storm", "async_barrier", "async_protocol_storm", "remove_full", "async_remove_full", "async_clear_ack"])}], "assumptions": CACHE_ASSUME},
+    "C15": {"module": "StrettoModel.Props.C15", "oracles": [{"name": "live-ring", "run": live_oracle("C15", ["async_ring_accounting", "policy_busy_lookups"])}, {"name": "flavour-differential", "run": flavour_oracle_for("C15")}],
             "jobs": [acache_job(r"\.(ring|metrics|ret|batch)$"), cache_job(r"\.(ring|metrics|ret|batch)$"),
                      {"name": "tinylfu", "driver": "tiny", "fields": r"^tiny\.",
                       "gen": lambda tier, seed: ["sketch", "--seed", str(seed), "--ops", "300" if tier == "quick" else "2000",
@@ -223,14 +223,14 @@ PROPS = {
             "assumptions": CACHE_ASSUME + ["what the policy worker does with a kept batch is TinyLFU.increments, the subject of C13; the stepped harness parks the worker so the bounded queue does fill up"]},
     "C19": {"module": "StrettoModel.Props.C19", "jobs": [acache_job(r".*"), cache_job(r".*", quick_lives=8)],
             "oracles": [{"name": "flavour-differential", "run": flavour_oracle},
-                        {"name": "live-async", "run": live_oracle("C19", ["async_barrier", "async_remove_full", "async_invariants", "async_protocol_storm", "async_clear_burst", "async_ring_accounting", "async_sweep_race", "async_sweep_under_traffic"])}],
+                        {"name": "live-async", "run": live_oracle("C19", ["async_barrier", "async_remove_full", "async_invariants", "async_protocol_storm", "async_clear_burst", "async_ring_accounting", "async_sweep_race", "async_sweep_under_traffic", "async_clear_ack"])}],
             "assumptions": CACHE_ASSUME + ["AsyncCache is tied to the model by its own stepped traces (acache job: tokio current-thread runtime, composite steps a.drain / a.wait / a.clear / a.close whose unobserved sub-steps are replayed muted) and through Cache: the same scripted histories (quiescence after every operation, virtual clock, equal sketch seeds) are run against both and every observable compared; executors sampled: thread-per-task, tokio multi-thread, tokio current-thread",
                                            "the gets_kept / gets_dropped split and the queue length legitimately differ (bounded 3 vs unbounded) and are masked; their sum is compared"]},
     "C17": {"module": "StrettoModel.Props.C17", "jobs": [acache_job(r"\.(metrics|life|policy|ret)$"), cache_job(r"\.(metrics|life|policy|ret)$", extra=["--w-clear", "4"]), policy_job(r"^pol\..*(metrics|state)$"),
                      {"name": "hist", "driver": "hist", "fields": r".*",
                       "gen": lambda tier, seed: ["hist", "--seed", str(seed), "--ops", "200" if tier == "quick" else "600", "--lives", "30" if tier == "quick" else "120"],
                       "seeds": {"quick": 1, "thorough": 6}}],
-            "oracles": [{"name": "flavour-differential", "run": flavour_oracle_for("C17")}, {"name": "live-invariants", "run": live_oracle("C17", ["invariants", "async_invariants"])}],
+            "oracles": [{"name": "flavour-differential", "run": flavour_oracle_for("C17")}, {"name": "live-invariants", "run": live_oracle("C17", ["invariants", "async_invariants", "metrics_contention"])}],
             "branches": ["h.update.first", "h.update.last", "h.update.inner", "h.update.on_bound", "h.clear", "get.hit", "get.miss", "getmut.hit", "getmut.miss", "get.closed", "insert.dropped", "padd.room", "padd.evicting", "padd.rejected", "padd.already_charged", "p.item.update", "delete.resident", "tick.reclaimed", "p.clear.buf1"],
             "assumptions": CACHE_ASSUME + ["the 256 stripes of each counter are summed into one u64 total in the model; every law is proved modulo 2^64 (equality whenever the true quantities fit)",
                                            "ratio() is f64 arithmetic on hits and misses and is compared on the implementation's own output, not proved; in the modelled code no admission is ever tracked (F14), so the cache never feeds the life-expectancy histogram: the histogram type itself (Histogram::new/update/clear/mean/percentile/Display, integer-valued bounds) is modelled, proved (count = sum of buckets, bucket of a sample) and tied by its own trace job through the public API",
@@ -245,17 +245,17 @@ PROPS = {
             "jobs": [acache_job(r".*"), cache_job(r".*", name="config-sweep", extra=["--sweep", "1"], quick_ops=60, quick_lives=70, thorough_ops=150, thorough_lives=140, seeds={"quick": 1, "thorough": 8}),
                      cache_job(r".*", quick_lives=10)],
             "branches": ["finalize.ok", "finalize.InvalidNumCounters", "finalize.InvalidMaxCost", "finalize.InvalidBufferSize", "padd.evicting", "tick.reclaimed", "ring.flush.kept"],
-            "oracles": [{"name": "live-completion", "run": live_oracle("C20", ["ttl_mix", "protocol_storm", "tiny_cleanup_interval"])}], "assumptions": CACHE_ASSUME},
+            "oracles": [{"name": "live-completion", "run": live_oracle("C20", ["ttl_mix", "protocol_storm", "tiny_cleanup_interval", "ring_contention"])}], "assumptions": CACHE_ASSUME},
     "C09": {
         "module": "StrettoModel.Props.C09",
-        "oracles": [{"name": "flavour-differential", "run": flavour_oracle_for("C09")}],
+        "oracles": [{"name": "flavour-differential", "run": flavour_oracle_for("C09")}, {"name": "live-validator-race", "run": live_oracle("C09", ["validator_race"])}],
             "jobs": [acache_job(r"\.(store|expiry|ret|callbacks|buffer)$", extra=["--w-ttl", "60"]), cache_job(r"\.(store|expiry|ret|callbacks|buffer)$", extra=["--w-ttl", "50"])],
         "branches": ["iip.absent", "iip.expired", "iip.update", "iip.vetoed_or_conflict", "insert.update", "insert.new_over_resident"],
         "assumptions": CACHE_ASSUME + ["validators are table-driven (always, never, new>old, same parity); the theorems quantify over every predicate"],
     },
     "C11": {
         "module": "StrettoModel.Props.C11",
-        "oracles": [{"name": "live-clear-burst", "run": live_oracle("C11", ["clear_burst", "async_clear_burst", "clear_held_ref"])}, {"name": "flavour-differential", "run": flavour_oracle_for("C11")}],
+        "oracles": [{"name": "live-clear-burst", "run": live_oracle("C11", ["clear_burst", "async_clear_burst", "clear_held_ref", "async_clear_ack", "double_clear"])}, {"name": "flavour-differential", "run": flavour_oracle_for("C11")}],
             "jobs": [acache_job(r"\.(store|expiry|policy|buffer|metrics|ret|callbacks|len|clear)$"), cache_job(r"\.(store|expiry|policy|buffer|metrics|ret|callbacks|len|clear)$", extra=["--w-clear", "8", "--w-ttl", "40"])],
         "branches": ["clear.blocked.buf0", "clear.blocked.buf1", "clear.blocked.buf2", "p.clear.buf0", "p.clear.buf1", "p.clear.buf2", "ret.clear"],
         "assumptions": CACHE_ASSUME,
@@ -279,7 +279,7 @@ PROPS = {
         "module": "StrettoModel.Props.C01",
         "jobs": [policy_job(r"^pol\.(add|add\.state|remove|update|clear|maxcost|cost|cap)$"),
                  acache_job(r"\.(policy)$", quick_lives=8), cache_job(r"\.(policy)$", quick_lives=14)],
-        "oracles": [{"name": "live-invariants", "run": live_oracle("C01", ["invariants", "async_invariants"])}],
+        "oracles": [{"name": "live-invariants", "run": live_oracle("C01", ["invariants", "async_invariants", "sweep_refresh_race"])}],
         "branches": POLICY_BRANCHES,
         "assumptions": [
             "i64 costs are modelled by unbounded Int under Dom: costs >= 0 and no i64 overflow of cost + item_size or of the running sum",
@@ -305,7 +305,10 @@ PROPS = {
              "gen": lambda tier, seed: ["sketch", "--seed", str(seed), "--ops", "300" if tier == "quick" else "2000",
                                         "--lives", "40" if tier == "quick" else "140"],
              "seeds": {"quick": 1, "thorough": 12}},
+            # the estimator as the cache builders configure it (both flavours, both setter orders)
+            acache_job(r"^c\.init\.", quick_lives=10), cache_job(r"^c\.init\.", quick_ops=40, quick_lives=24),
         ],
+        "oracles": [{"name": "live-policy-busy", "run": live_oracle("C13", ["policy_busy_lookups"])}],
         "branches": ["row.get", "row.inc", "row.reset", "tiny.inc.reset", "tiny.inc.sketch", "tiny.inc.doorkeeper",
                      "tiny.clear", "tiny.est.unseen", "tiny.est.seen", "tiny.est.saturated"],
         "assumptions": [
